@@ -112,3 +112,142 @@ C04 = dict(
                  "duplicate detection modelled as implemented (cedar's deep_eq on closed ancestor sets); the property does not constrain it"],
 )
 FAMILIES["C04"] = C04
+
+
+def _store4_cases(per_state):
+    import random
+
+    def f(world, c, i):
+        rnd = random.Random(1000003 * vseed() + i)
+        pre = [[r[0], r[1], r[2]] for r in c["pre"]]
+        out = []
+        for k in range(per_state[0]):
+            if rnd.random() < 0.5:
+                arg = [u for u in range(1, 5) if rnd.random() < 0.4] or [rnd.randint(1, 4)]
+                op = ["remove", arg]
+            else:
+                par = [u for u in range(1, 5) if rnd.random() < 0.3]
+                op = [rnd.choice(["upsert", "upsert", "add"]), [[rnd.randint(1, 4), par, rnd.randint(0, 1)]]]
+            out.append(dict(id="%d.%d" % (i, k), nu=4, hist=[["from", pre], op]))
+        return out
+    return f
+
+
+def vseed():
+    import vlib
+    return vlib.seed()
+
+
+_ps = [1]
+C04["models"].append(dict(name="mc_store4", module="MC_EntityStore.tla",
+                          cfg=dict(quick="MC_EntityStore_4.cfg", thorough="MC_EntityStore_4.cfg"),
+                          cases=_store4_cases(_ps), limit=dict(quick=6000, thorough=None)))
+C04["models"][0]["limit"] = dict(quick=6000, thorough=None)
+C04["per_state"] = _ps
+C04["rule"] += (" Second model: all 16305 reachable stores over 4 uids (TLC-enumerated); for each, seeded random remove-subset / single upsert / single add "
+                "operations are applied by the harness (quick: 6000 sampled (state, op) pairs; thorough: 8 ops for every state).")
+
+
+# ----------------------------------------------------------------- C08
+def _pset_case(world, c, i):
+    return dict(id=i, world=world, pre=c["pre"], op=c["op"])
+
+
+def _pset_random_state(rnd, pool, world):
+    """a small well-formed abstract state over `pool`"""
+    st, tm, ln = {}, {}, {}
+    ids = list(pool)
+    rnd.shuffle(ids)
+    for id_ in ids[:rnd.randint(0, len(ids))]:
+        k = rnd.random()
+        if k < 0.4:
+            st[id_] = rnd.randint(1, 2)
+        elif k < 0.75 or not tm:
+            tm[id_] = rnd.randint(1, 3)
+        else:
+            t = rnd.choice(sorted(tm))
+            ln[id_] = dict(tid=t, env=_pset_env(rnd, tm[t], exact=True))
+    return dict(st=st, tm=tm, ln=ln)
+
+
+_SLOTS = {1: ["principal"], 2: ["principal", "resource"], 3: ["resource"]}
+_PV = [["ent", "User", "a"], ["ent", "Group", "g"]]
+_RV = [["ent", "Doc", "d"], ["ent", "Group", "g"]]
+
+
+def _pset_env(rnd, tbody, exact):
+    slots = list(_SLOTS[tbody])
+    if not exact and rnd.random() < 0.35:
+        slots = rnd.choice([[], ["principal"], ["resource"], ["principal", "resource"]])
+    env = {}
+    for s in slots:
+        env[s] = rnd.choice(_PV if s == "principal" else _RV)
+    return env
+
+
+def _pset_histories(fam, tier, wd, seed):
+    import random, os, vlib
+    world = fam.get("_world")
+    if world is None:
+        return []
+    rnd = random.Random(seed * 7919 + 17)
+    n = 700 if tier == "quick" else 20000
+    pool = ["a", "b", "c", "d"]
+    cases = []
+    for i in range(n):
+        hist = []
+        tmpl = {}        # best-effort tracking only to bias towards enabled operations
+        for _ in range(rnd.randint(3, 14)):
+            k = rnd.random()
+            if k < 0.18:
+                hist.append(["add", rnd.choice(pool), rnd.randint(1, 2)])
+            elif k < 0.38:
+                id_, b = rnd.choice(pool), rnd.randint(1, 3)
+                tmpl.setdefault(id_, b)
+                hist.append(["addTemplate", id_, b])
+            elif k < 0.62:
+                t = rnd.choice(sorted(tmpl) if tmpl and rnd.random() < 0.8 else pool)
+                hist.append(["link", t, rnd.choice(pool), _pset_env(rnd, tmpl.get(t, rnd.randint(1, 3)), exact=False)])
+            elif k < 0.70:
+                hist.append(["unlink", rnd.choice(pool)])
+            elif k < 0.77:
+                hist.append(["removeStatic", rnd.choice(pool)])
+            elif k < 0.85:
+                t = rnd.choice(pool)
+                hist.append(["removeTemplate", t])
+            else:
+                hist.append(["merge", _pset_random_state(rnd, pool + ["policy0"], world), rnd.random() < 0.6])
+        cases.append(dict(id="h%d" % i, world=world, hist=hist))
+    cpath = os.path.join(wd, "hist.cases.ndjson")
+    tpath = os.path.join(wd, "hist.trace.ndjson")
+    vlib.write_ndjson(cpath, cases)
+    vlib.conform("replay", "pset", cpath, tpath)
+    return [(tpath, "T:histories", "Trace_PolicySet.tla")]
+
+
+def _mutate_pset(ev):
+    if ev.get("ev") != "PsOp":
+        return None
+    ev = json.loads(json.dumps(ev))
+    r = ev["battery"][0]
+    r["decision"] = "Deny" if r["decision"] == "Allow" else "Allow"
+    return ev
+
+
+C08 = dict(
+    family="pset", trace_module="Trace_PolicySet.tla",
+    models=[dict(name="mc_pset", module="MC_PolicySet.tla", cfg=dict(quick="MC_PolicySet_3.cfg", thorough="MC_PolicySet_3.cfg"),
+                 cases=_pset_case, limit=dict(quick=7000, thorough=None))],
+    extra_traces=_pset_histories,
+    nontrivial=lambda ev: ev.get("ev") == "PsOp",
+    key=lambda ev: [ev.get("pre", {}).get("st"), ev.get("pre", {}).get("tm"), ev.get("pre", {}).get("ln"), ev.get("op")],
+    mutate=_mutate_pset, chunk=1500,
+    rule="G: every (reachable policy-set state, operation) pair of PolicySetSM over ids {a,b,c} (<=3 ids bound), 2 static and 3 template bodies, "
+         "9 slot environments (exact, missing, extra), merge against 6 fixed sets with and without renaming (161k pairs; quick replays a seeded "
+         "sample of 7000, thorough all) with the pre-state built canonically; T: random histories of 3-14 operations over 4 ids incl. merges with "
+         "random sets. After each step: public and core projections, get_linked_policies, lookups, counts, and the authorizer on 3 requests, all "
+         "re-derived by TLC (links by substitution). distinct by (pre-state, operation).",
+    assumptions=["bodies are identified through their @body annotation and effect; conditions are checked through the authorization battery",
+                 "fresh ids chosen by merge are unconstrained beyond freshness and injectivity"],
+)
+FAMILIES["C08"] = C08
